@@ -57,7 +57,8 @@ def check_site(g, n):
     node = None
     # the CFG node that evaluates this operation: find the first node whose expression contains n
     for cn in g.nodes:
-        if cn.e is not None and cn.kind not in ('entry', 'exit', 'throwexit', 'edge', 'loophead') and _contains(cn, n):
+        if cn.e is not None and cn.kind not in ('entry', 'exit', 'throwexit', 'edge', 'loophead', 'switch', 'case', 'tryentry', 'catch', 'rangeinit', 'break',
+                                                'continue', 'ireturn') and _contains(cn, n):
             node = cn
             break
     if node is None:
